@@ -232,46 +232,62 @@ func c11CollectedIntoSlice(ev ssa.Value) bool {
 // correct tree is zero; the positive control controls/C11/R7__* keeps the rule honest.
 func c11SelfClearingGuards(r *Run) {
 	r.RuleDoc("C11.R7", "no API write is guarded by a persisted condition of the reconciled replica set that the same invocation resets (such a write would not be retried after a failure)")
-	apply := r.Prog.Method(pkgERS, "Reconciler", "applyStrategy")
-	if apply == nil {
-		r.Fatal("anchor (%s.Reconciler).applyStrategy not found", pkgERS)
+	// dispatchers: functions of the replica-set controller package, reachable from its Reconcile, that
+	// call a planner of the strategy package (found by what they call, not by name: a renamed or split
+	// dispatcher — one method per role — is analysed the same way)
+	rec := r.Prog.Method(pkgERS, "Reconciler", "Reconcile")
+	if rec == nil {
+		r.Fatal("anchor (%s.Reconciler).Reconcile not found", pkgERS)
 		return
 	}
-	ff := computeFacts(apply)
 	condUpdate := pkgERSCond + ".UpdateExtendedDaemonSetReplicaSetStatusCondition"
-	// per strategy call: condition types reset to False in a block that dominates the call
 	type roleCall struct {
 		call  *ssa.Call
 		reset map[string]bool
 	}
 	var roles []roleCall
-	for _, ci := range callsIn(apply) {
-		c, ok := ci.(*ssa.Call)
-		if !ok {
+	var apply *ssa.Function
+	for _, fn := range sortedFuncs(r.Prog.reachableFuncs(rec)) {
+		if fn.Pkg == nil || fn.Pkg.Pkg.Path() != pkgERS {
 			continue
 		}
-		cal := staticCallee(&c.Call)
-		if cal == nil || cal.Pkg == nil || cal.Pkg.Pkg.Path() != pkgStrategy {
-			continue
-		}
-		rc := roleCall{call: c, reset: map[string]bool{}}
-		for _, cj := range callsIn(apply) {
-			u, ok := cj.(*ssa.Call)
-			if !ok || calleeName(&u.Call) != condUpdate || len(u.Call.Args) < 4 {
+		for _, ci := range callsIn(fn) {
+			c, ok := ci.(*ssa.Call)
+			if !ok {
 				continue
 			}
-			t, okT := constString(u.Call.Args[2])
-			st, okS := constString(u.Call.Args[3])
-			if !okT || !okS || st != "False" {
+			cal := staticCallee(&c.Call)
+			if cal == nil || cal.Pkg == nil || cal.Pkg.Pkg.Path() != pkgStrategy || cal.Signature.Results().Len() == 0 {
 				continue
 			}
-			if u.Block() == c.Block() && instrIndex(u) < instrIndex(c) || u.Block() != c.Block() && u.Block().Dominates(c.Block()) {
-				rc.reset[t] = true
+			if !isPtrToNamed(cal.Signature.Results().At(0).Type(), pkgStrategy, "Result") {
+				continue
 			}
+			if apply == nil {
+				apply = fn
+			}
+			rc := roleCall{call: c, reset: map[string]bool{}}
+			for _, cj := range callsIn(fn) {
+				u, ok := cj.(*ssa.Call)
+				if !ok || calleeName(&u.Call) != condUpdate || len(u.Call.Args) < 4 {
+					continue
+				}
+				t, okT := constString(u.Call.Args[2])
+				st, okS := constString(u.Call.Args[3])
+				if !okT || !okS || st != "False" {
+					continue
+				}
+				if u.Block() == c.Block() && instrIndex(u) < instrIndex(c) || u.Block() != c.Block() && u.Block().Dominates(c.Block()) {
+					rc.reset[t] = true
+				}
+			}
+			roles = append(roles, rc)
 		}
-		roles = append(roles, rc)
 	}
-	_ = ff
+	if apply == nil {
+		r.Fatal("no function of %s reachable from its Reconcile calls a planner of the strategy package", pkgERS)
+		return
+	}
 	n := 0
 	for _, rc := range roles {
 		if len(rc.reset) == 0 {
